@@ -45,6 +45,7 @@ WRAP(int, "stat", stat, (const char* p, struct stat* s), (p, s))
 WRAP(int, "stat", lstat, (const char* p, struct stat* s), (p, s))
 WRAP(int, "stat", fstat, (int fd, struct stat* s), (fd, s))
 WRAP(int, "stat", fstatat, (int d, const char* p, struct stat* s, int f), (d, p, s, f))
+WRAP(int, "close", close, (int fd), (fd))
 WRAP(int, "sync", fsync, (int fd), (fd))
 WRAP(int, "sync", fdatasync, (int fd), (fd))
 WRAP(int, "mkdir", mkdir, (const char* p, mode_t m), (p, m))
